@@ -174,7 +174,7 @@ def _install_ble_setup_handler():
     sba.BleAccessory._vf_setup_patched = True
 
 
-BLE_SCENARIOS = ["clean", "wrong-then-right", "drop-start", "drop-m3", "drop-m5", "drop-late", "wrong-code"]
+BLE_SCENARIOS = ["clean", "wrong-then-right", "drop-start", "drop-m3", "drop-m5", "drop-late", "wrong-code", "overlap-connect"]
 
 
 async def ble_case(ctx, idx: int, scenario: str) -> None:
@@ -193,9 +193,21 @@ async def ble_case(ctx, idx: int, scenario: str) -> None:
         if scenario == "drop-start":
             w.write_fault_at = 1
         try:
-            finish = await asyncio.wait_for(w.discovery.async_start_pairing("alias"), 120)
+            if scenario == "overlap-connect":
+                # a second public operation on the same discovery object arrives while the first is still bringing the link
+                # up (every operation starts with _ensure_connected): ONE link - the exchange started on it finishes on it
+                t = asyncio.ensure_future(w.discovery.async_start_pairing("alias"))
+                other = asyncio.ensure_future(w.discovery._ensure_connected())
+                finish = await asyncio.wait_for(t, 120)
+                await asyncio.wait_for(other, 120)
+                ctx.count("ble_setup_overlapping_connects")
+            else:
+                finish = await asyncio.wait_for(w.discovery.async_start_pairing("alias"), 120)
         except Exception as ex:  # noqa: BLE001
             ctx.violation(f"ble-setup-start-fails-{type(ex).__name__}", f"{label}: async_start_pairing raised {ex!r}", replay)
+            return
+        if scenario == "overlap-connect" and len(w.accessory.clients) != 1:
+            ctx.violation("ble-setup-second-link-opened", f"{label}: {len(w.accessory.clients)} BLE links were opened by two overlapping operations on one discovery object (the exchange's M1/M2 ran on the first)", replay)
             return
         base = w.writes
         if scenario == "drop-m3":
@@ -280,7 +292,21 @@ async def ip_case(ctx, idx: int, scenario: str) -> None:
             return
         use = wrong if scenario == "wrong-code" else code
         try:
-            pairing = await asyncio.wait_for(finish(use), 60)
+            if scenario == "overlap-malformed":
+                # the user's first, mistyped entry (not even a well-formed code) is submitted while the exchange with the
+                # right code is already under way: the malformed call fails by itself and disturbs nothing
+                t = asyncio.ensure_future(finish(use))
+                for _ in range(rng.randint(1, 30)):
+                    await asyncio.sleep(0)
+                try:
+                    await asyncio.wait_for(finish("48219305"), 60)
+                    ctx.violation("ip-setup-returns-pairing-for-wrong-code", f"{label}: a malformed code returned a pairing", replay)
+                    return
+                except Exception:  # noqa: BLE001
+                    ctx.count("ip_setup_overlapping_malformed_codes")
+                pairing = await asyncio.wait_for(t, 60)
+            else:
+                pairing = await asyncio.wait_for(finish(use), 60)
         except HomeKitException as ex:
             if scenario == "wrong-code":
                 ctx.count("transport_setups_wrong_code_refused")
@@ -532,6 +558,9 @@ async def run_all(ctx) -> None:
             j += 1
             if ctx.mine(j):
                 await ble_case(ctx, k, sc)
+        j += 1
+        if ctx.mine(j):
+            await ip_case(ctx, k, "overlap-malformed")
         for sc in ("clean", "wrong-code"):
             j += 1
             if ctx.mine(j):
